@@ -27,6 +27,14 @@ Record reg := { g_thread : nat; g_kfd : kfd; g_idx : N }.
 
 Record mapping := { m_vmm : N; m_size : N; m_gpa : N }.
 Record region := { rg_gpa : N; rg_size : N; rg_file : N; rg_off : N }.
+(* memory side of the daemon: the translation table, the guest memory handed to the backend, the shared
+   files (size and bytes written so far; unwritten bytes are zero), and what the backend was told *)
+Record dmem := {
+  m_maps : list mapping; m_regs : list region;
+  m_fsizes : list (N * N); m_fbytes : list (N * N * N);
+  m_upd : N; m_ackf : list N; m_evlog : list N }.
+Definition dmem0 : dmem :=
+  {| m_maps := []; m_regs := []; m_fsizes := []; m_fbytes := []; m_upd := 0; m_ackf := []; m_evlog := [] |}.
 
 Record dstate := {
   d_nq : nat; d_maxq : N; d_features : N; d_pfeatures : N; d_masks : list N;
@@ -39,7 +47,7 @@ Record dstate := {
   d_rq_acked : N; d_rq_acked_proto : N;                (* request server *)
   d_fe_avf : N; d_fe_apf : N; d_fe_maxq : N;           (* frontend endpoint *)
   d_dead : bool;                                        (* the daemon thread stopped serving *)
-  d_mappings : list mapping; d_regions : list region;
+  d_mem : dmem;
   d_worker_dead : list nat }.
 
 Definition hasd (x b : N) : bool := negb (N.land x b =? 0).
@@ -77,13 +85,13 @@ Definition set_rings (s : dstate) (rs : list ring) : dstate :=
      d_rings := rs; d_regs := d_regs s; d_pending := d_pending s; d_fe_holds := d_fe_holds s; d_next_inst := d_next_inst s;
      d_owned := d_owned s; d_acked := d_acked s; d_acked_proto := d_acked_proto s; d_rq_acked := d_rq_acked s;
      d_rq_acked_proto := d_rq_acked_proto s; d_fe_avf := d_fe_avf s; d_fe_apf := d_fe_apf s; d_fe_maxq := d_fe_maxq s;
-     d_dead := d_dead s; d_mappings := d_mappings s; d_regions := d_regions s; d_worker_dead := d_worker_dead s |}.
+     d_dead := d_dead s; d_mem := d_mem s; d_worker_dead := d_worker_dead s |}.
 Definition set_regs (s : dstate) (g : list reg) : dstate :=
   {| d_nq := d_nq s; d_maxq := d_maxq s; d_features := d_features s; d_pfeatures := d_pfeatures s; d_masks := d_masks s;
      d_rings := d_rings s; d_regs := g; d_pending := d_pending s; d_fe_holds := d_fe_holds s; d_next_inst := d_next_inst s;
      d_owned := d_owned s; d_acked := d_acked s; d_acked_proto := d_acked_proto s; d_rq_acked := d_rq_acked s;
      d_rq_acked_proto := d_rq_acked_proto s; d_fe_avf := d_fe_avf s; d_fe_apf := d_fe_apf s; d_fe_maxq := d_fe_maxq s;
-     d_dead := d_dead s; d_mappings := d_mappings s; d_regions := d_regions s; d_worker_dead := d_worker_dead s |}.
+     d_dead := d_dead s; d_mem := d_mem s; d_worker_dead := d_worker_dead s |}.
 
 (* update_vring_registration *)
 Definition update_reg (s : dstate) (r : ring) (q : N) : dstate :=
@@ -130,19 +138,26 @@ Definition set_misc (s : dstate) (owned : bool) (acked acked_proto rq_acked rq_a
      d_rings := d_rings s; d_regs := d_regs s; d_pending := d_pending s; d_fe_holds := d_fe_holds s; d_next_inst := d_next_inst s;
      d_owned := owned; d_acked := acked; d_acked_proto := acked_proto; d_rq_acked := rq_acked;
      d_rq_acked_proto := rq_acked_proto; d_fe_avf := fe_avf; d_fe_apf := fe_apf; d_fe_maxq := fe_maxq;
-     d_dead := d_dead s; d_mappings := d_mappings s; d_regions := d_regions s; d_worker_dead := d_worker_dead s |}.
+     d_dead := d_dead s; d_mem := d_mem s; d_worker_dead := d_worker_dead s |}.
 Definition kill (s : dstate) : dstate :=
   {| d_nq := d_nq s; d_maxq := d_maxq s; d_features := d_features s; d_pfeatures := d_pfeatures s; d_masks := d_masks s;
      d_rings := d_rings s; d_regs := d_regs s; d_pending := d_pending s; d_fe_holds := d_fe_holds s; d_next_inst := d_next_inst s;
      d_owned := d_owned s; d_acked := d_acked s; d_acked_proto := d_acked_proto s; d_rq_acked := d_rq_acked s;
      d_rq_acked_proto := d_rq_acked_proto s; d_fe_avf := d_fe_avf s; d_fe_apf := d_fe_apf s; d_fe_maxq := d_fe_maxq s;
-     d_dead := true; d_mappings := d_mappings s; d_regions := d_regions s; d_worker_dead := d_worker_dead s |}.
+     d_dead := true; d_mem := d_mem s; d_worker_dead := d_worker_dead s |}.
 Definition set_files (s : dstate) (pending : list (N * N)) (holds : list N) (next : N) : dstate :=
   {| d_nq := d_nq s; d_maxq := d_maxq s; d_features := d_features s; d_pfeatures := d_pfeatures s; d_masks := d_masks s;
      d_rings := d_rings s; d_regs := d_regs s; d_pending := pending; d_fe_holds := holds; d_next_inst := next;
      d_owned := d_owned s; d_acked := d_acked s; d_acked_proto := d_acked_proto s; d_rq_acked := d_rq_acked s;
      d_rq_acked_proto := d_rq_acked_proto s; d_fe_avf := d_fe_avf s; d_fe_apf := d_fe_apf s; d_fe_maxq := d_fe_maxq s;
-     d_dead := d_dead s; d_mappings := d_mappings s; d_regions := d_regions s; d_worker_dead := d_worker_dead s |}.
+     d_dead := d_dead s; d_mem := d_mem s; d_worker_dead := d_worker_dead s |}.
+
+Definition set_mem (s : dstate) (m : dmem) : dstate :=
+  {| d_nq := d_nq s; d_maxq := d_maxq s; d_features := d_features s; d_pfeatures := d_pfeatures s; d_masks := d_masks s;
+     d_rings := d_rings s; d_regs := d_regs s; d_pending := d_pending s; d_fe_holds := d_fe_holds s; d_next_inst := d_next_inst s;
+     d_owned := d_owned s; d_acked := d_acked s; d_acked_proto := d_acked_proto s; d_rq_acked := d_rq_acked s;
+     d_rq_acked_proto := d_rq_acked_proto s; d_fe_avf := d_fe_avf s; d_fe_apf := d_fe_apf s; d_fe_maxq := d_fe_maxq s;
+     d_dead := d_dead s; d_mem := m; d_worker_dead := d_worker_dead s |}.
 
 Definition pending_of (s : dstate) (f : N) : N :=
   fold_right (fun p a => if fst p =? f then snd p else a) 0 (d_pending s).
@@ -164,7 +179,10 @@ Definition h_set_features (s : dstate) (v : N) : dstate * dres :=
     let rs := map (fun r => {| r_ready := r_ready r; r_enabled := r_enabled r; r_kick := r_kick r; r_call := r_call r; r_err := r_err r;
                                r_size := r_size r; r_next_avail := r_next_avail r; r_next_used := r_next_used r;
                                r_desc := r_desc r; r_avail := r_avail r; r_used := r_used r; r_event_idx := ev |}) (d_rings s2) in
-    (set_rings s2 rs, DOk []).
+    let m := d_mem s2 in
+    (set_mem (set_rings s2 rs)
+             {| m_maps := m_maps m; m_regs := m_regs m; m_fsizes := m_fsizes m; m_fbytes := m_fbytes m; m_upd := m_upd m;
+                m_ackf := m_ackf m ++ [v]; m_evlog := m_evlog m ++ [if ev then 1 else 0] |}, DOk []).
 
 Definition h_reset_device (s : dstate) : dstate * dres :=
   let s1 := enable_all s (d_nq s) 0 false in
@@ -226,12 +244,10 @@ Definition h_set_vring_num (s : dstate) (q n : N) : dstate * dres :=
   match get_ring s q with
   | None => (s, DErr)
   | Some r =>
-      if (n =? 0) || (d_maxq s <? n) then (s, DErr)
+      if (n =? 0) || (d_maxq s <? n) || negb (is_pow2 n) then (s, DErr)
       else
-        (* virtio-queue's set_size keeps the old size unless the new one is a power of two within the maximum *)
-        let sz := if is_pow2 n && (n <=? d_maxq s) then n else r_size r in
         (put_ring s q {| r_ready := r_ready r; r_enabled := r_enabled r; r_kick := r_kick r; r_call := r_call r; r_err := r_err r;
-                         r_size := sz; r_next_avail := r_next_avail r; r_next_used := r_next_used r;
+                         r_size := n; r_next_avail := r_next_avail r; r_next_used := r_next_used r;
                          r_desc := r_desc r; r_avail := r_avail r; r_used := r_used r; r_event_idx := r_event_idx r |}, DOk [])
   end.
 Definition h_set_vring_base (s : dstate) (q b : N) : dstate * dres :=
@@ -241,6 +257,183 @@ Definition h_set_vring_base (s : dstate) (q b : N) : dstate * dres :=
       (put_ring s q {| r_ready := r_ready r; r_enabled := r_enabled r; r_kick := r_kick r; r_call := r_call r; r_err := r_err r;
                        r_size := r_size r; r_next_avail := cast 16 b; r_next_used := r_next_used r;
                        r_desc := r_desc r; r_avail := r_avail r; r_used := r_used r; r_event_idx := r_event_idx r |}, DOk [])
+  end.
+
+
+(* ---- shared files and guest memory ---- *)
+Definition fsize_of (m : dmem) (f : N) : N :=
+  match find (fun p => fst p =? f) (m_fsizes m) with Some p => snd p | None => 0 end.
+Definition fbyte_of (m : dmem) (f off : N) : N :=
+  match find (fun t => (fst (fst t) =? f) && (snd (fst t) =? off)) (m_fbytes m) with Some t => snd t | None => 0 end.
+Definition with_files (m : dmem) (sizes : list (N * N)) (bytes : list (N * N * N)) : dmem :=
+  {| m_maps := m_maps m; m_regs := m_regs m; m_fsizes := sizes; m_fbytes := bytes; m_upd := m_upd m;
+     m_ackf := m_ackf m; m_evlog := m_evlog m |}.
+Definition with_table (m : dmem) (maps : list mapping) (regs : list region) : dmem :=
+  {| m_maps := maps; m_regs := regs; m_fsizes := m_fsizes m; m_fbytes := m_fbytes m; m_upd := m_upd m + 1;
+     m_ackf := m_ackf m; m_evlog := m_evlog m |}.
+Fixpoint put_bytes (f off : N) (bytes : list N) (acc : list (N * N * N)) : list (N * N * N) :=
+  match bytes with
+  | [] => acc
+  | b :: r => put_bytes f (off + 1) r ((f, off, b) :: acc)
+  end.
+(* a write through a descriptor (pwrite): extends the file when it ends beyond the current size *)
+Definition file_write (m : dmem) (f off : N) (bytes : list N) : dmem :=
+  let e := off + N.of_nat (List.length bytes) in
+  with_files m ((f, N.max (fsize_of m f) e) :: m_fsizes m) (put_bytes f off bytes (m_fbytes m)).
+Definition file_read (m : dmem) (f off len : N) : list N :=
+  let sz := fsize_of m f in
+  let n := if off <? sz then N.min len (sz - off) else 0 in
+  map (fun i => fbyte_of m f (off + N.of_nat i)) (seq 0 (N.to_nat n)).
+
+Definition region_of (regs : list region) (a : N) : option region :=
+  find (fun r => (rg_gpa r <=? a) && (a <? rg_gpa r + rg_size r)) regs.
+(* the file locations of the bytes [a, a+n) as far as guest memory is mapped without a gap *)
+Fixpoint mem_locs (regs : list region) (a : N) (n : nat) : list (N * N) :=
+  match n with
+  | O => []
+  | S k =>
+      match region_of regs a with
+      | Some r => (rg_file r, rg_off r + (a - rg_gpa r)) :: mem_locs regs (a + 1) k
+      | None => []
+      end
+  end.
+Fixpoint put_locs (locs : list (N * N)) (bytes : list N) (acc : list (N * N * N)) : list (N * N * N) :=
+  match locs, bytes with
+  | (f, o) :: rl, b :: rb => put_locs rl rb ((f, o, b) :: acc)
+  | _, _ => acc
+  end.
+(* write_slice: the bytes that fit before the first gap are written; the call fails unless all were *)
+Definition mem_write (m : dmem) (a : N) (bytes : list N) : dmem * bool :=
+  match bytes with
+  | [] => (m, o_is_some (region_of (m_regs m) a))
+  | _ =>
+      let locs := mem_locs (m_regs m) a (List.length bytes) in
+      (with_files m (m_fsizes m) (put_locs locs bytes (m_fbytes m)), Nat.eqb (List.length locs) (List.length bytes))
+  end.
+Definition mem_read (m : dmem) (a : N) (n : nat) : option (list N) :=
+  match n with
+  | O => if o_is_some (region_of (m_regs m) a) then Some [] else None
+  | _ =>
+      let locs := mem_locs (m_regs m) a n in
+      if Nat.eqb (List.length locs) n then Some (map (fun l => fbyte_of m (fst l) (snd l)) locs) else None
+  end.
+(* an atomic 16-bit access: inside one region, at an even offset from the region's start *)
+Definition mem_u16_ok (m : dmem) (a : N) : bool :=
+  match region_of (m_regs m) a with
+  | Some r => (a + 2 <=? rg_gpa r + rg_size r) && ((a - rg_gpa r) mod 2 =? 0)
+  | None => false
+  end.
+Definition mem_load16 (m : dmem) (a : N) : option N :=
+  if mem_u16_ok m a then
+    match mem_read m a 2 with Some [b0; b1] => Some (b0 + 256 * b1) | _ => None end
+  else None.
+
+(* mapping a file: the offset must be page-aligned.  (Whether the range lies inside the file is not checked by
+   the code; touching a page beyond the end of the file is the frontend's fault and the cases avoid it.) *)
+Definition PAGE : N := 4096.
+Definition mmap_ok (m : dmem) (off size file : N) : bool := off mod PAGE =? 0.
+(* GuestRegionCollection::from_regions: ascending by start address, no two overlapping *)
+Fixpoint regs_sorted (l : list region) : bool :=
+  match l with
+  | a :: ((b :: _) as r) => (rg_gpa a <=? rg_gpa b) && (rg_gpa a + rg_size a - 1 <? rg_gpa b) && regs_sorted r
+  | _ => true
+  end.
+Fixpoint insert_reg (x : region) (l : list region) : list region :=
+  match l with
+  | [] => [x]
+  | y :: r => if rg_gpa x <? rg_gpa y then x :: l else y :: insert_reg x r
+  end.
+
+(* a = [gpa; size; user; off; file] *)
+Definition mk_region (a : list N) : region :=
+  {| rg_gpa := nth 0 a 0; rg_size := nth 1 a 0; rg_file := nth 4 a 0; rg_off := nth 3 a 0 |}.
+Definition mk_mapping (a : list N) : mapping :=
+  {| m_vmm := nth 2 a 0; m_size := nth 1 a 0; m_gpa := nth 0 a 0 |}.
+Definition region_arg_valid (a : list N) : bool :=
+  let sz := nth 1 a 0 in
+  negb (sz =? 0) && (nth 0 a 0 + sz <? 2 ^ 64) && (nth 2 a 0 + sz <? 2 ^ 64) && (nth 3 a 0 + sz <? 2 ^ 64).
+
+Definition h_set_mem_table (s : dstate) (rl : list (list N)) : dstate * dres :=
+  let m := d_mem s in
+  if negb (forallb (fun a => mmap_ok m (nth 3 a 0) (nth 1 a 0) (nth 4 a 0)) rl) then (s, DErr)
+  else
+    let regs := map mk_region rl in
+    if negb (Nat.ltb 0 (List.length regs)) || negb (regs_sorted regs) then (s, DErr)
+    else (set_mem s (with_table m (map mk_mapping rl) regs), DOk []).
+Definition h_add_mem (s : dstate) (a : list N) : dstate * dres :=
+  let m := d_mem s in
+  if negb (mmap_ok m (nth 3 a 0) (nth 1 a 0) (nth 4 a 0)) then (s, DErr)
+  else
+    let regs := insert_reg (mk_region a) (m_regs m) in
+    if negb (regs_sorted regs) then (s, DErr)
+    else (set_mem s (with_table m (m_maps m ++ [mk_mapping a]) regs), DOk []).
+Definition h_rem_mem (s : dstate) (a : list N) : dstate * dres :=
+  let m := d_mem s in
+  let hit r := (rg_gpa r =? nth 0 a 0) && (rg_size r =? nth 1 a 0) in
+  if existsb hit (m_regs m)
+  then (set_mem s (with_table m (filter (fun mp => negb (m_gpa mp =? nth 0 a 0)) (m_maps m))
+                              (filter (fun r => negb (rg_gpa r =? nth 0 a 0)) (m_regs m))), DOk [])
+  else (s, DErr).
+
+Definition va_to_gpa (maps : list mapping) (va : N) : option N :=
+  match find (fun mp => (m_vmm mp <=? va) && (va <? m_vmm mp + m_size mp)) maps with
+  | Some mp => Some (va - m_vmm mp + m_gpa mp)
+  | None => None
+  end.
+
+Definition with_addrs (r : ring) (desc avail used next_used : N) : ring :=
+  {| r_ready := r_ready r; r_enabled := r_enabled r; r_kick := r_kick r; r_call := r_call r; r_err := r_err r;
+     r_size := r_size r; r_next_avail := r_next_avail r; r_next_used := next_used;
+     r_desc := desc; r_avail := avail; r_used := used; r_event_idx := r_event_idx r |}.
+
+(* a = [q; flags; desc; used; avail] (user addresses) *)
+Definition h_set_vring_addr (s : dstate) (a : list N) : dstate * dres :=
+  let q := nth 0 a 0 in
+  let m := d_mem s in
+  match get_ring s q with
+  | None => (s, DErr)
+  | Some r =>
+      match m_maps m with
+      | [] => (s, DErr)
+      | _ =>
+          match va_to_gpa (m_maps m) (nth 2 a 0), va_to_gpa (m_maps m) (nth 4 a 0), va_to_gpa (m_maps m) (nth 3 a 0) with
+          | Some d, Some av, Some u =>
+              (* the three addresses are installed one after the other; the first misaligned one stops it *)
+              if negb (d mod 16 =? 0) then (s, DErr)
+              else if negb (av mod 2 =? 0) then (put_ring s q (with_addrs r d (r_avail r) (r_used r) (r_next_used r)), DErr)
+              else if negb (u mod 4 =? 0) then (put_ring s q (with_addrs r d av (r_used r) (r_next_used r)), DErr)
+              else
+                match mem_load16 m ((u + 2) mod 2 ^ 64) with
+                | Some idx => if u + 2 <? 2 ^ 64 then (put_ring s q (with_addrs r d av u idx), DOk [])
+                              else (put_ring s q (with_addrs r d av u (r_next_used r)), DErr)
+                | None => (put_ring s q (with_addrs r d av u (r_next_used r)), DErr)
+                end
+          | _, _, _ => (s, DErr)
+          end
+      end
+  end.
+
+(* Queue::add_used on ring q through the current guest memory *)
+Definition le32 (v : N) : list N := [v mod 256; (v / 256) mod 256; (v / 65536) mod 256; (v / 16777216) mod 256].
+Definition h_add_used (s : dstate) (q idx len : N) : dstate * bool :=
+  match get_ring s q with
+  | None => (s, false)
+  | Some r =>
+      if r_size r <=? idx then (s, false)
+      else
+        let m := d_mem s in
+        let slot := r_used r + 4 + (r_next_used r mod r_size r) * 8 in
+        if 2 ^ 64 <=? slot then (s, false)
+        else
+          let '(m1, ok) := mem_write m slot (le32 idx ++ le32 len) in
+          if negb ok then (set_mem s m1, false)
+          else
+            let nu := (r_next_used r + 1) mod 65536 in
+            let s1 := put_ring (set_mem s m1) q (with_addrs r (r_desc r) (r_avail r) (r_used r) nu) in
+            if (2 ^ 64 <=? r_used r + 2) || negb (mem_u16_ok m1 (r_used r + 2)) then (s1, false)
+            else
+              let '(m2, _) := mem_write m1 (r_used r + 2) [nu mod 256; nu / 256] in
+              (set_mem s1 m2, true)
   end.
 
 (* ---- one step of the family: control message (through the three layers), guest action, query ---- *)
@@ -294,7 +487,7 @@ Fixpoint poll (fuel : nat) (s : dstate) (events : list val) : dstate * list val 
                             d_fe_holds := d_fe_holds s; d_next_inst := d_next_inst s; d_owned := d_owned s; d_acked := d_acked s;
                             d_acked_proto := d_acked_proto s; d_rq_acked := d_rq_acked s; d_rq_acked_proto := d_rq_acked_proto s;
                             d_fe_avf := d_fe_avf s; d_fe_apf := d_fe_apf s; d_fe_maxq := d_fe_maxq s; d_dead := d_dead s;
-                            d_mappings := d_mappings s; d_regions := d_regions s; d_worker_dead := t :: d_worker_dead s |}, events)
+                            d_mem := d_mem s; d_worker_dead := t :: d_worker_dead s |}, events)
                       else
                         let s1 := set_files s (set_pending (d_pending s) f0 0) (d_fe_holds s) (d_next_inst s) in
                         let ev := if r_enabled r then [VL [VN (N.of_nat t); VN (g_idx g); VN (r_size r)]] else [] in
@@ -313,7 +506,7 @@ Definition dinit (nq : nat) (maxq features pfeatures : N) (masks : list N) : dst
   {| d_nq := nq; d_maxq := maxq; d_features := features; d_pfeatures := pfeatures; d_masks := masks;
      d_rings := repeat (ring0 maxq) nq; d_regs := []; d_pending := []; d_fe_holds := []; d_next_inst := 0;
      d_owned := false; d_acked := 0; d_acked_proto := 0; d_rq_acked := 0; d_rq_acked_proto := 0;
-     d_fe_avf := 0; d_fe_apf := 0; d_fe_maxq := 32768; d_dead := false; d_mappings := []; d_regions := [];
+     d_fe_avf := 0; d_fe_apf := 0; d_fe_maxq := 32768; d_dead := false; d_mem := dmem0;
      d_worker_dead := [] |}.
 
 Definition hold (s : dstate) (f : N) : dstate :=
@@ -322,7 +515,7 @@ Definition hold (s : dstate) (f : N) : dstate :=
 Definition PF_ALL := VhostUserProtocolFeatures_all.
 
 (* one step: returns the new state and the step's result (before the workers run) *)
-Definition d_apply (s : dstate) (kind : string) (a : list N) : dstate * val :=
+Definition d_apply (s : dstate) (kind : string) (a : list N) (data : list N) (rl : list (list N)) : dstate * val :=
   let arg i := nth i a 0 in
   let q := arg 0%nat in
   let q_fe := q <? d_fe_maxq s in
@@ -405,6 +598,60 @@ Definition d_apply (s : dstate) (kind : string) (a : list N) : dstate * val :=
                      VN (r_avail r); VN (r_used r); VN (if r_event_idx r then 1 else 0); VN (if r_enabled r then 1 else 0)])
     | _, _ => (s, VS "no-owner")
     end
+  else if String.eqb kind "file_size" then
+    let m := d_mem s in (set_mem s (with_files m ((q, arg 1%nat) :: m_fsizes m) (m_fbytes m)), VS "ok")
+  else if String.eqb kind "guest_write" then (set_mem s (file_write (d_mem s) q (arg 1%nat) data), VS "ok")
+  else if String.eqb kind "guest_read" then (s, vbytes (file_read (d_mem s) q (arg 1%nat) (arg 2%nat)))
+  else if String.eqb kind "set_mem_table" then
+    let n := List.length rl in
+    control s (Nat.ltb 0 n && Nat.leb n 32 && forallb (fun r => negb (nth 1 r 0 =? 0)) rl)
+            (forallb region_arg_valid rl) false (fun s => h_set_mem_table s rl)
+  else if String.eqb kind "add_mem" then
+    control s (hasd (d_fe_apf s) VhostUserProtocolFeatures_CONFIGURE_MEM_SLOTS && negb (arg 1%nat =? 0))
+            (hasd (d_rq_acked_proto s) VhostUserProtocolFeatures_CONFIGURE_MEM_SLOTS && region_arg_valid a) false
+            (fun s => h_add_mem s a)
+  else if String.eqb kind "rem_mem" then
+    control s (hasd (d_fe_apf s) VhostUserProtocolFeatures_CONFIGURE_MEM_SLOTS && negb (arg 1%nat =? 0))
+            (hasd (d_rq_acked_proto s) VhostUserProtocolFeatures_CONFIGURE_MEM_SLOTS && region_arg_valid a) false
+            (fun s => h_rem_mem s a)
+  else if String.eqb kind "set_vring_addr" then
+    control s (q_fe && (N.land (arg 1%nat) (lnot 32 1) =? 0))
+            ((arg 2%nat mod 16 =? 0) && (arg 4%nat mod 2 =? 0) && (arg 3%nat mod 4 =? 0)) false
+            (fun s => h_set_vring_addr s a)
+  else if String.eqb kind "regions" then
+    if existsb (Nat.eqb 0) (d_worker_dead s) then (s, VS "worker-timeout")
+    else (s, if m_upd (d_mem s) =? 0 then VL []
+             else VL (map (fun r => VL [VN (rg_gpa r); VN (rg_size r)]) (m_regs (d_mem s))))
+  else if String.eqb kind "write_mem" then
+    if existsb (Nat.eqb 0) (d_worker_dead s) then (s, VS "worker-timeout")
+    else if m_upd (d_mem s) =? 0 then (s, VS "no-memory")
+    else let '(m1, ok) := mem_write (d_mem s) q data in (set_mem s m1, VS (if ok then "ok" else "error"))
+  else if String.eqb kind "read_mem" then
+    if existsb (Nat.eqb 0) (d_worker_dead s) then (s, VS "worker-timeout")
+    else if m_upd (d_mem s) =? 0 then (s, VS "no-memory")
+    else (s, match mem_read (d_mem s) q (N.to_nat (arg 1%nat)) with Some b => vbytes b | None => VS "error" end)
+  else if String.eqb kind "add_used" then
+    match owner_of (d_masks s) q 0, get_ring s q with
+    | Some (t, _), Some _ =>
+        if existsb (Nat.eqb t) (d_worker_dead s) then (s, VS "worker-timeout")
+        else let '(s1, ok) := h_add_used s q (cast 16 (arg 1%nat)) (cast 32 (arg 2%nat)) in (s1, VS (if ok then "ok" else "error"))
+    | _, _ => (s, VS "no-owner")
+    end
+  else if String.eqb kind "signal" then
+    match owner_of (d_masks s) q 0, get_ring s q with
+    | Some (t, _), Some r =>
+        if existsb (Nat.eqb t) (d_worker_dead s) then (s, VS "worker-timeout")
+        else (match r_call r with
+              | Some f => set_files s (set_pending (d_pending s) f (pending_of s f + 1)) (d_fe_holds s) (d_next_inst s)
+              | None => s
+              end, VS "ok")
+    | _, _ => (s, VS "no-owner")
+    end
+  else if String.eqb kind "read_call" then
+    let s0 := hold s q in
+    (set_files s0 (set_pending (d_pending s0) q 0) (d_fe_holds s0) (d_next_inst s0), VN (pending_of s0 q))
+  else if String.eqb kind "backend_log" then
+    let m := d_mem s in (s, VL [VN (m_upd m); VL (map VN (m_ackf m)); VL (map VN (m_evlog m)); VN 0])
   else (s, VS "model-unknown-step").
 
 Fixpoint insert_sorted (x : val) (key : val -> N) (l : list val) : list val :=
@@ -415,7 +662,7 @@ Fixpoint insert_sorted (x : val) (key : val -> N) (l : list val) : list val :=
 Definition ev_key (v : val) : N :=
   match v with VL [VN t; VN i; VN m] => t * 1000000 + i * 10000 + m | _ => 0 end.
 
-Definition d_step (s : dstate) (kind : string) (a : list N) : dout :=
-  let '(s1, r) := d_apply s kind a in
+Definition d_step (s : dstate) (kind : string) (a : list N) (data : list N) (rl : list (list N)) : dout :=
+  let '(s1, r) := d_apply s kind a data rl in
   let '(s2, evs) := poll (List.length (d_regs s1) * 2 + 4) s1 [] in
   {| do_state := s2; do_res := r; do_events := fold_right (fun e acc => insert_sorted e ev_key acc) [] evs |}.
